@@ -436,7 +436,7 @@ fn cmd_run(args: &Args, digest_only: bool) -> ! {
         let _ = std::fs::create_dir_all(&replay_dir);
         let fname = format!(
             "{replay_dir}/{prop}-{}-{seed}-{}-{}.json",
-            class.replace([':', '<', '>', '/'], "_"),
+            class.replace([':', '<', '>', '/', ' '], "_"),
             f.source.replace('/', "_"),
             f.run
         );
